@@ -848,6 +848,9 @@ class Context:
             def parse_int(digits):
                 if digits == "-0":
                     return -0.0
+                if len(digits) > 25:
+                    # (a long run of digits rounds to a double anyway; int() limits its input length)
+                    return float(digits)
                 return norm_number(int(digits))
 
             def build(py_value):
